@@ -208,6 +208,9 @@ class Ctx:
         env = dict(os.environ)
         jto = env.get("JAVA_TOOL_OPTIONS", "")
         jto += " -Xss256m"
+        jtmp = meta + "-jtmp"   # TLC leaves one tlc-<n> directory per run in java.io.tmpdir; keep them out of /tmp
+        os.makedirs(jtmp, exist_ok=True)
+        jto += " -Djava.io.tmpdir=" + jtmp
         if heap:
             jto += " -Xmx%s" % heap
         if deque:
@@ -222,6 +225,7 @@ class Ctx:
             raise ToolFailure("TLC timed out after %ds: %s %s" % (timeout, module, cfg))
         finally:
             shutil.rmtree(meta, ignore_errors=True)
+            shutil.rmtree(jtmp, ignore_errors=True)
         out = re.sub(r"Picked up JAVA_TOOL_OPTIONS.*\n", "", p.stdout)
         r = TlcResult(out, p.returncode)
         r.wall = time.time() - t
